@@ -10,6 +10,7 @@ import (
 	"fmt"
 	"math/big"
 	"reflect"
+	"sort"
 	"strings"
 	"testing"
 	"time"
@@ -990,3 +991,188 @@ var c13Char = Register(Prop[c13CharCase]{
 })
 
 func TestC13CharacterPrefix(t *testing.T) { Check(t, c13Char) }
+
+// ---------------------------------------------------------------------------------------
+// C13: several markers of one name open at the same time ("repeated markers"), next to markers of other names.
+// Which open marker a [/a] closes when two are open is not stated, so nothing here depends on it. What is stated:
+// every marker yields an attribute that starts where the marker was written; markers are no text. Hence
+//   (1) the start positions of the a-attributes are the places of the [a ...] markers, one each, properties attached;
+//   (2) their ends are, as a multiset, the places of the [/a] markers;
+//   (3) the a-attributes are the same whether or not markers of OTHER names are written in the line - taking the
+//       markers [x] [/x] [y] [/y] out of the line takes out no text and no a-marker.
+
+type c13RepTok struct {
+	K string `json:"k"` // text, open, close
+	N string `json:"n,omitempty"`
+	T string `json:"t,omitempty"`
+}
+
+type c13RepCase struct {
+	Toks     []c13RepTok `json:"toks"`
+	CloseAll bool        `json:"close_all,omitempty"` // what is still open at the end is closed by [/] instead of by name
+}
+
+func (c c13RepCase) render(withOthers bool) (line string, opens map[int]int, closes []int, ok bool) {
+	var b strings.Builder
+	pos, k := 0, 0
+	opens = map[int]int{}
+	open := map[string]int{}
+	for _, tok := range c.Toks {
+		other := tok.N != "a"
+		switch tok.K {
+		case "text":
+			b.WriteString(tok.T)
+			pos += utf8.RuneCountInString(tok.T)
+		case "open":
+			if other && open[tok.N] > 0 {
+				continue // names other than a are open once at a time: their pairing is never in question
+			}
+			open[tok.N]++
+			if other {
+				if withOthers {
+					b.WriteString("[" + tok.N + "]")
+				}
+				continue
+			}
+			k++
+			opens[k] = pos
+			fmt.Fprintf(&b, "[a k=%d]", k)
+		case "close":
+			if open[tok.N] == 0 {
+				continue
+			}
+			open[tok.N]--
+			if other {
+				if withOthers {
+					b.WriteString("[/" + tok.N + "]")
+				}
+				continue
+			}
+			closes = append(closes, pos)
+			b.WriteString("[/a]")
+		}
+	}
+	if c.CloseAll {
+		for i := 0; i < open["a"]; i++ {
+			closes = append(closes, pos)
+		}
+		if withOthers || open["a"] > 0 {
+			b.WriteString("[/]")
+		}
+	} else {
+		for _, n := range []string{"x", "a", "y"} {
+			for ; open[n] > 0; open[n]-- {
+				if n == "a" {
+					closes = append(closes, pos)
+					b.WriteString("[/a]")
+				} else if withOthers {
+					b.WriteString("[/" + n + "]")
+				}
+			}
+		}
+	}
+	return b.String(), opens, closes, k >= 1
+}
+
+func runC13Rep(c c13RepCase) Verdict {
+	full, opens, closes, ok := c.render(true)
+	if !ok {
+		return Verdict{Discard: "no marker named a"}
+	}
+	bare, _, _, _ := c.render(false)
+	type span struct{ pos, length int }
+	collect := func(line string) (map[int]span, *Verdict) {
+		res, err, panicked := parseFresh(line)
+		if panicked != nil {
+			v := failf("ParseMarkup(%q) panicked: %v", line, panicked)
+			return nil, &v
+		}
+		if err != nil {
+			v := failf("ParseMarkup(%q) failed although every close marker has an open marker of its name before it: %v", line, err)
+			return nil, &v
+		}
+		out := map[int]span{}
+		for _, a := range res.Attributes {
+			if a.Name != "a" {
+				continue
+			}
+			k := a.Properties["k"].IntegerValue
+			if _, dup := out[k]; dup {
+				v := failf("ParseMarkup(%q): two attributes for the marker [a k=%d]: %+v", line, k, res.Attributes)
+				return nil, &v
+			}
+			if _, known := opens[k]; !known {
+				v := failf("ParseMarkup(%q): an attribute named a with k=%d, which no marker of the line carries: %+v", line, k, res.Attributes)
+				return nil, &v
+			}
+			out[k] = span{a.Position, a.Length}
+		}
+		return out, nil
+	}
+	withOthers, v := collect(full)
+	if v != nil {
+		return *v
+	}
+	if len(withOthers) != len(opens) {
+		return failf("ParseMarkup(%q): %d markers named a were written and closed, %d attributes named a came back: %+v", full, len(opens), len(withOthers), withOthers)
+	}
+	var ends []int
+	for k, at := range opens {
+		got, ok := withOthers[k]
+		if !ok {
+			return failf("ParseMarkup(%q): no attribute for the marker [a k=%d]", full, k)
+		}
+		if got.pos != at {
+			return failf("ParseMarkup(%q): the marker [a k=%d] was written after %d characters of text, its attribute starts at %d", full, k, at, got.pos)
+		}
+		ends = append(ends, got.pos+got.length)
+	}
+	sort.Ints(ends)
+	wantEnds := append([]int{}, closes...)
+	sort.Ints(wantEnds)
+	if fmt.Sprint(ends) != fmt.Sprint(wantEnds) {
+		return failf("ParseMarkup(%q): the markers named a are closed after %v characters of text, the attributes end at %v", full, wantEnds, ends)
+	}
+	without, v := collect(bare)
+	if v != nil {
+		return *v
+	}
+	for k, a := range withOthers {
+		if b := without[k]; a != b {
+			return failf("the attribute of [a k=%d] is %d+%d in %q but %d+%d in %q, which is the same line without the markers of other names (they enclose text of their own and are no text themselves)",
+				k, a.pos, a.length, full, b.pos, b.length, bare)
+		}
+	}
+	cls := []string{fmt.Sprintf("a-markers=%d", min(len(opens), 4))}
+	if full != bare {
+		cls = append(cls, "other-names-present")
+	}
+	return Verdict{NonTrivial: len(opens) >= 2 && full != bare, Classes: cls}
+}
+
+var c13Rep = Register(Prop[c13RepCase]{
+	ID: "C13", Name: "repeated-names", Run: runC13Rep,
+	Gen: func(t *rapid.T) c13RepCase {
+		n := rapid.IntRange(3, 14).Draw(t, "tokens")
+		var c c13RepCase
+		for i := 0; i < n; i++ {
+			switch rapid.IntRange(0, 5).Draw(t, "kind") {
+			case 0, 1:
+				c.Toks = append(c.Toks, c13RepTok{K: "text", T: rapid.SampledFrom([]string{"1", "ab", "é", "日本", "x y", "w"}).Draw(t, "text")})
+			case 2, 3:
+				c.Toks = append(c.Toks, c13RepTok{K: "open", N: rapid.SampledFrom([]string{"a", "a", "x", "y"}).Draw(t, "name")})
+			default:
+				c.Toks = append(c.Toks, c13RepTok{K: "close", N: rapid.SampledFrom([]string{"a", "a", "x", "y"}).Draw(t, "name")})
+			}
+		}
+		c.CloseAll = rapid.IntRange(0, 3).Draw(t, "closeall") == 0
+		return c
+	},
+	Render: func(c c13RepCase) any {
+		full, _, _, _ := c.render(true)
+		bare, _, _, _ := c.render(false)
+		return map[string]any{"line": full, "without_other_names": bare}
+	},
+})
+
+func TestC13RepeatedNames(t *testing.T) { Check(t, c13Rep) }
